@@ -29,6 +29,22 @@ S = {
  "agent2-C18": "ShiftBus40 cut-off moved from >= 40 to > 40: sv = +40 or -40 in arithmetic mode calls SignExtend with bit_count 0 (shift by 2^32-1)",
  "agent2-C19": "interrupt latches drained only when a summary flag is set, flag cleared after the drain: a host SendData landing between a latch exchange and the flag store is lost unless another source signals later; needs a second interrupt source",
 }
+
+S.update({
+ "agent4-C06": "CoreTiming::Skip advances only the components that reported a finite horizon: a component with an infinite horizon (enabled audio port with an empty queue, running single-shot timer already at 0 ...) is not fast-forwarded and loses its phase",
+ "agent4-C07": "repeat flag cleared one issue early in Run (rep bookkeeping): after the last-but-one issue the core is interruptible in the middle of a repeat; an interrupt is delivered inside a rep although delivery is deferred while repeating",
+ "agent4-C08": "interrupt gate tests a local 'repeating' flag instead of regs.rep: a request latched while the rep instruction itself executes is taken with repeat mode armed, the handler's first instruction is repeated and the interrupted repeat runs once",
+ "agent4-C09": "bkrep forms push the frame first and read the count afterwards: 'bkrep lc' inside an active block repeat reads the stale counter of the new slot instead of the enclosing loop's live counter; needs the register form with lc at nesting depth >= 1",
+ "agent4-C11": "paired 32-bit accessor for mova/mov2 decides MMIO-vs-memory once from the high-half address: a dword move straddling an edge of the MMIO window sends one half to the wrong side (memory underneath written / register clobbered)",
+ "agent4-C12": "MU test hoisted from UpdateMMIO to its call sites, TickEvent forgotten: an EW write in event-count mode overwrites COUNTER_L/H although MU = 0; needs CM = 3, unpaused, non-zero internal counter, MU = 0",
+ "agent4-C13": "DMA Tick de-duplicated through helpers that take the DSP-side address as u16: data addresses at or above 0x10000 (second bank, reachable only by DMA) wrap into the first bank",
+ "agent4-C14": "DataChannel::Recv as Peek() followed by a second critical section clearing the flag: a Send landing between the two locks is lost (old value returned, new value's flag cleared); needs reader and writer on different threads",
+ "agent4-C15": "Timer::Skip unified subtraction; the pause / event-count early-out moved into the counter != 0 arm: a paused auto-restart or free-running timer sitting at 0 is reloaded and counts during an idle skip",
+ "agent4-C16": "same idea as agent4-C06 arrived at independently from the audio side: CoreTiming::Skip leaves out components with an infinite horizon; an enabled port with nothing queued stops emitting its (zero) frames during idle skips",
+ "agent4-C17": "Apbp::Reset resets the semaphore state through MaskSemaphore(0); ClearSemaphore(0xFFFF): with a masked pending semaphore the unmask inside Reset fires the semaphore handler / raises IRQ 14, so Reset differs from a fresh machine",
+ "agent4-C18": "Ahbm burst queue replaced by a linear 8-slot array FIFO that rewinds only when drained: a read burst left partly consumed followed by a write burst through the same channel stores to units[8] and indexes wildly afterwards",
+ "agent4-C19": "vectored-interrupt target (address, context bit) moved from two atomics into a plain struct 'ordered by the pending flag': the DSP thread's read for request k races with the host thread's write for request k+1; needs IRQ 14 routed to the vectored line",
+})
 root = os.path.join(os.path.dirname(os.path.abspath(__file__)), "..", "seeded")
 for k, v in S.items():
     p = os.path.join(root, k, "meta.json")
